@@ -49,7 +49,7 @@ FAR_C = C([3, 0.2], 0.5)                        # disjoint from everything near 
 FAR_P = P([2.5, 1], [3.5, 1.2], [2.4, 1.9])
 G_CMOVE = C([aff(0.3, t=0.4), 0.5], 0.2)        # moving hole, inside SQ for t in [0,1]
 SQ_MOVE2 = P([aff(0.35, t=0.4), 0.2], [aff(1.35, t=0.4), 0.2], [aff(0.35, t=0.4), 1.2])   # overlaps SQ partially for every t
-G_CGROW = C([0.9, 0.6], aff(0.3, t=0.3))
+G_CGROW = C([0.9, 0.6], aff(0.3, t=0.23))       # radius 0.3 .. 0.53: never tangent to the line y=0 (0.6 would touch it)
 
 # ---- 1-D / 3-D leaves ---------------------------------------------------------------------
 I01 = I(0, 1)
